@@ -63,9 +63,15 @@ func permutations(n int) [][]int {
 type potsOut struct {
 	w     *traceWriter
 	lines int
+	buf   bool // hold the lines back (reg-explore keeps them only when the transition is new)
+	held  []M
 }
 
 func (o *potsOut) write(m M) {
+	if o.buf {
+		o.held = append(o.held, m)
+		return
+	}
 	b, _ := json.Marshal(m)
 	o.w.w.Write(b)
 	o.w.w.WriteByte('\n')
